@@ -111,6 +111,10 @@ func runC13(c *Ctx) {
 		}
 	}
 	cases = append(cases, cs{im: fibImage(rng), pars: []*t81par{randPar(rng, 1, 1, 0), randPar(rng, 1, 1, 2)}})
+	// skewed-categories through the Go encoders -> T.81 decoder, and one T.81 stream back
+	for p := 13; p <= 16; p++ {
+		cases = append(cases, cs{im: skewedImage(rng, p, 1, 1), pars: []*t81par{randPar(rng, 1+rng.Intn(7), 1, 0)}})
+	}
 	// conformant streams with EMPTY-payload APPn/COM segments, always present: table 0 only, both
 	// DHT placements, every extraSegs mode with an empty segment, predictor 1 (both decoders) and 4, 7
 	for _, comps := range []int{1, 3} {
